@@ -158,7 +158,10 @@ H_EAttach(s, r, l) ==
            dupN == \E k \in DOMAIN s.ls : s.ls[k].ech = r.ch /\ s.ls[k].name = f.name /\ s.ls[k].eutSender = eutSender /\ LinkLiveE(s.ls[k])
            \* answers an attach the peer sent first?
            ans == LastIdx(s.ls, LAMBDA y : y.pch = s.ss[i].pch /\ y.name = f.name /\ y.eutSender = eutSender /\ y.pAtt /\ ~y.eAtt /\ ~y.pDet)
-           base == IF ans > 0 THEN s.ls[ans] ELSE NewLink
+           \* a link that is resumed keeps the sends that are still unsettled: their outcome may now come from the peer's unsettled map
+           prev == LastIdx(s.ls, LAMBDA y : y.name = f.name /\ y.eutSender = eutSender /\ y.eAtt /\ y.eDet /\ ~y.pClosed)
+           kept == IF eutSender /\ ans = 0 /\ prev > 0 THEN SelectSeq(s.ls[prev].sendq, LAMBDA q : ~q.done /\ ~q.presettled /\ q.did >= 0) ELSE <<>>
+           base == IF ans > 0 THEN s.ls[ans] ELSE [NewLink EXCEPT !.sendq = kept, !.sendsIssued = Len(kept), !.delsDone = Len(kept)]
            ci == LastIdx(s.pendCfg, LAMBDA c : c.name = f.name)
            y == [base EXCEPT !.ech = r.ch, !.eh = f.h, !.name = f.name, !.eutSender = eutSender, !.eAtt = TRUE,
                              !.creditMode = IF ~eutSender /\ ci > 0 THEN s.pendCfg[ci].credit ELSE @,
@@ -202,11 +205,14 @@ H_ETransfer(s, r, l) ==
       devOK == x.pBegun /\ (unit => x.devWin > 0)
       x2 == [x EXCEPT !.framesOut = @ + 1, !.delsOut = IF unit THEN @ + 1 ELSE @, !.lastDid = IF first /\ f.did >= 0 THEN f.did ELSE @,
                       !.devWin = IF unit THEN Max(0, @ - 1) ELSE @]
-      qi == IF first THEN FirstIdx(y.sendq, LAMBDA q : q.m = r.pl.m /\ q.did = -1) ELSE 0
+      \* (a delivery that is sent again after a resumption -- resumed under its tag or resent as a new one -- is the same send: it gets the new id)
+      qi0 == IF first THEN FirstIdx(y.sendq, LAMBDA q : q.m = r.pl.m /\ q.did = -1) ELSE 0
+      qi == IF first /\ qi0 = 0 /\ f.resume /\ f.tagn >= 0 THEN FirstIdx(y.sendq, LAMBDA q : q.tag = f.tag /\ q.did >= 0 /\ ~q.done /\ ~q.presettled /\ q.outcome = "none")
+            ELSE IF first /\ qi0 = 0 /\ r.pl.m >= 0 THEN FirstIdx(y.sendq, LAMBDA q : q.m = r.pl.m /\ q.did >= 0 /\ ~q.done /\ ~q.presettled /\ q.outcome = "none") ELSE qi0
       y2 == [y EXCEPT !.inDel = f.more, !.curDid = IF first THEN f.did ELSE @, !.dcS = IF first THEN @ + 1 ELSE @,
                       !.fWired = IF first THEN @ + 1 ELSE @, !.owed = IF first THEN Max(0, @ - 1) ELSE @,
                       !.delsDone = IF f.more THEN @ ELSE @ + 1, !.lastM = IF first THEN r.pl.m ELSE @,
-                      !.sendq = IF qi > 0 THEN [@ EXCEPT ![qi].did = f.did, ![qi].presettled = (f.settled = "t")] ELSE @]
+                      !.sendq = IF qi > 0 THEN [@ EXCEPT ![qi].did = f.did, ![qi].presettled = (f.settled = "t"), ![qi].tag = (IF f.tagn >= 0 THEN f.tag ELSE <<>>)] ELSE @]
   IN R(SetL(SetS(s, i, x2), k, y2),
          Chk("C07_WindowSafety", strictOK, l, IF devOK THEN "dev_ok" ELSE "dev_bad")
        + Chk("C11_DeliveryIdIncreasing", ~first \/ (f.did >= 0 /\ f.did > x.lastDid), l, "")
@@ -360,7 +366,13 @@ H_PAttach(s, r, l) ==
       base == IF ans > 0 THEN s.ls[ans] ELSE NewLink
       y == [base EXCEPT !.pch = r.ch, !.ph = f.h, !.name = f.name, !.eutSender = eutSender, !.pAtt = TRUE, !.mmsP = f.mms,
                         !.dcR = IF ~eutSender /\ f.idc >= 0 THEN f.idc ELSE @, !.dcGot = IF ~eutSender /\ f.idc >= 0 THEN f.idc ELSE @, !.idcP = IF ~eutSender /\ f.idc >= 0 THEN f.idc ELSE @,
-                        !.snd = IF ~eutSender \/ ans = 0 THEN f.snd ELSE @, !.rcv = IF eutSender \/ ans = 0 THEN f.rcv ELSE @]
+                        !.snd = IF ~eutSender \/ ans = 0 THEN f.snd ELSE @, !.rcv = IF eutSender \/ ans = 0 THEN f.rcv ELSE @,
+                        \* resumption: a terminal state in the receiver's unsettled map is the outcome the receiver applied to that delivery
+                        \* (2.6.13): the send that waits for it resolves with it
+                        !.sendq = IF eutSender THEN [n \in DOMAIN base.sendq |->
+                                     LET q == base.sendq[n]
+                                         u == FirstIdx(f.unsl, LAMBDA e : e.tag = q.tag /\ e.k \in {"accepted", "rejected", "released", "modified"}) IN
+                                     IF u > 0 /\ q.tag # <<>> /\ q.outcome = "none" THEN [q EXCEPT !.outcome = f.unsl[u].k, !.done = TRUE] ELSE q] ELSE @]
   IN R([s EXCEPT !.ls = IF ans > 0 THEN [s.ls EXCEPT ![ans] = y] ELSE Append(s.ls, y)], 0)
 
 H_PDetach(s, r, l) ==
@@ -456,7 +468,7 @@ H_ApiCall(s, r, l) ==
        IF k = 0 THEN R(s, 0) ELSE R(SetL(s, k, [s.ls[k] EXCEPT !.sendsIssued = @ + 1, !.touched = TRUE, !.fSends = @ + 1,
                                                 \* owed: how many of the waiting deliveries have had credit at the same time (they have taken it)
                                                 !.owed = Max(@, Min(1 + Cardinality({n \in DOMAIN s.ls[k].sendq : s.ls[k].sendq[n].did = -1}), IF s.ls[k].limit >= 0 THEN Max(0, s.ls[k].limit - s.ls[k].dcS) ELSE 0)),
-                                                !.sendq = Append(@, [call |-> r.call, m |-> r.args.m, did |-> -1, presettled |-> (s.ls[k].snd = 1 \/ (s.ls[k].snd = 2 /\ r.args.settled = "t")), outcome |-> "none", done |-> FALSE, ret |-> FALSE, canc |-> FALSE])]), 0)
+                                                !.sendq = Append(@, [call |-> r.call, m |-> r.args.m, did |-> -1, presettled |-> (s.ls[k].snd = 1 \/ (s.ls[k].snd = 2 /\ r.args.settled = "t")), outcome |-> "none", done |-> FALSE, ret |-> FALSE, canc |-> FALSE, tag |-> <<>>])]), 0)
   ELSE IF r.op = "dispose" THEN
        LET k == LinkByName(s, r.lname, FALSE)
            st == CASE r.args.state = "accept" -> "accepted" [] r.args.state = "reject" -> "rejected" [] r.args.state = "release" -> "released" [] OTHER -> "modified" IN
